@@ -13,6 +13,7 @@ from ..gen.materialize import TextBuilder
 ID = "C03"
 TITLE = "The model mirrors the source text, independent of formatting"
 RULE = (
+    "(Constants may be initialised through earlier constants of their section, array capacities and @assert operands may name them; services may define a constant of one name with different values on both sides of --- and use it on both; plans may turn empty lines into lines of blanks.)  "
     "Cases are (definition model, 3 drawn formatting plans): messages and services, structures and unions, fields of primitive / array / "
     "composite types (dependencies emitted as separate files), paddings, constants with initialiser spellings (dec/hex/bin/oct, "
     "separators, chars, reals, small arithmetic), header / same-line / following-line comments, orphan comment blocks, neutral "
